@@ -11,5 +11,7 @@ def wgDoneAfterClose : Bool := true
 def settersLocked : List (String × Bool) := [("Fulfill", true), ("Fail", true), ("Recover", true), ("Break", true)]
 def waitTakesUnderMutex : Bool := true
 def waitSleepsOnCond : Bool := true
+def failCond : String := "!set"
+def recoverTakesMessage : String := "when-recoverable"
 
 end Biogo.Generated.Concurrent
